@@ -430,6 +430,16 @@ func (r *Reconciler) reconcileAbort(ctx context.Context, proposal *configapi.Pro
 				return controller.Result{}, err
 			}
 			return controller.Result{}, nil
+		} else if config.Status.Committed.Index >= proposal.TransactionIndex &&
+			config.Status.Applied.Index >= proposal.TransactionIndex {
+			// Both indexes have already passed this proposal (the configuration was updated but the proposal
+			// status was not, e.g. the process stopped in between): all that is left is to mark it ABORTED
+			proposal.Status.Phases.Abort.End = getCurrentTimestamp()
+			proposal.Status.Phases.Abort.State = configapi.ProposalAbortPhase_ABORTED
+			if err := r.updateProposalStatus(ctx, proposal); err != nil {
+				return controller.Result{}, err
+			}
+			return controller.Result{}, nil
 		}
 
 	}
